@@ -260,6 +260,26 @@ def r4(run, ctx):
     mw = ctx.fn(A + 'manage_watchers')
     run.check('R4', bool(mw.synchronized), 'the periodic check competes for the same slot', mw,
               mw.node)
+    # the unsynchronized body (_start_watchers) is only entered from code that holds the slot
+    inner = A + '_start_watchers'
+
+    def under_slot(f, depth=0):
+        if f.synchronized:
+            return True
+        cs = ctx.callers_of([f.key], kinds=('call', 'ref'))
+        return bool(cs) and depth < 4 and all(
+            c.key != f.key and under_slot(c, depth + 1) for c, _ in cs)
+    n = 0
+    for caller, site in ctx.callers_of([inner], kinds=('call', 'ref')):
+        n += 1
+        run.check('R4', under_slot(caller), '%s enters the start sequence holding the slot'
+                  % caller.qualname, caller, site.node.ast,
+                  '%s runs the start sequence of all watchers through the unsynchronized '
+                  '_start_watchers without holding the exclusive slot: the periodic check is not '
+                  'refused meanwhile and spawns into the middle of the sequence (spawns closer '
+                  'than warmup_delay, more than numprocesses workers)' % caller.qualname,
+                  construct='UNSYNCHRONIZED-START-SEQUENCE')
+    run.count('R4', n, 3, 'callers of Arbiter._start_watchers')
 
 
 def r5(run, ctx):
